@@ -558,6 +558,10 @@ func (t *c18Tr) body(stmts []ast.Stmt, result string, leaf func(*c18Tr, ast.Expr
 		if len(s.Results) == 1 {
 			return leaf(t, s.Results[0]), nil
 		}
+		if len(s.Results) == 0 && result != "" {
+			// a bare return: the result variable keeps what it held
+			return leaf(t, ast.NewIdent(result)), nil
+		}
 	case *ast.AssignStmt:
 		if len(s.Lhs) == 1 && len(s.Rhs) == 1 && s.Tok == token.ASSIGN && t.src.show(s.Lhs[0]) == result {
 			return leaf(t, s.Rhs[0]), nil
